@@ -21,6 +21,7 @@ type loopFrame struct {
 	name   string
 	mods   []types.Object
 	hasRet bool
+	recArg string // the argument the recursion descends on ("fuel", or the rest of a ranged list)
 }
 
 type fctx struct {
@@ -466,13 +467,16 @@ func (c *fctx) binary(x *ast.BinaryExpr) (lx, error) {
 	switch x.Op {
 	case token.EQL, token.NEQ, token.LSS, token.LEQ, token.GTR, token.GEQ:
 		op := map[token.Token]string{token.EQL: "=", token.NEQ: "≠", token.LSS: "<", token.LEQ: "≤", token.GTR: ">", token.GEQ: "≥"}[x.Op]
-		if a.t.k == kList || a.t.k == kFunc || a.t.k == kOther {
+		if a.t.k == kList || a.t.k == kFunc || a.t.k == kOther || a.t.k == kFloat || b.t.k == kFloat {
 			return lx{}, fmt.Errorf("comparison of %s not supported", a.t.lean)
 		}
 		if a.t.k == kBool {
 			return mkBool(fmt.Sprintf("(%s %s %s)", a.s, op, b.s)), nil
 		}
 		return mkBool(fmt.Sprintf("(%s %s %s)", a.s, op, b.s)), nil
+	}
+	if a.t.k == kFloat || b.t.k == kFloat {
+		return lx{}, fmt.Errorf("floating-point arithmetic not supported at %s", fset.Position(x.Pos()))
 	}
 	t := a.t
 	bits := t.bits
@@ -771,9 +775,6 @@ func (c *fctx) callExpr(x *ast.CallExpr) (lx, error) {
 					}
 					return lx{s: "(" + a.s + " ++ " + b.s + ")", t: a.t}, nil
 				}
-				if a.t.k == kBuf {
-					return lx{}, fmt.Errorf("element-wise append to a written slice not supported")
-				}
 				var els []string
 				for _, e := range x.Args[1:] {
 					v, err := c.expr(e)
@@ -781,6 +782,9 @@ func (c *fctx) callExpr(x *ast.CallExpr) (lx, error) {
 						return lx{}, err
 					}
 					els = append(els, v.s)
+				}
+				if a.t.k == kBuf {
+					return lx{s: "(Pico.EncLow.Buf.append oracle " + a.s + " [" + strings.Join(els, ", ") + "])", t: a.t}, nil
 				}
 				return lx{s: "(" + a.s + " ++ [" + strings.Join(els, ", ") + "])", t: a.t}, nil
 			case "make":
